@@ -16,7 +16,7 @@ def sh(cmd, cwd=None, env=ENV, timeout=3600):
     return subprocess.run(cmd, cwd=cwd, env=env, capture_output=True, text=True, timeout=timeout)
 ap = argparse.ArgumentParser()
 ap.add_argument("prop"); ap.add_argument("k"); ap.add_argument("--props"); ap.add_argument("--tier", default="quick")
-ap.add_argument("--round", type=int, default=1)
+ap.add_argument("--round", type=int, default=1); ap.add_argument("--race", action="store_true", help="run the demonstration under the race detector")
 a = ap.parse_args()
 src = "/tmp/seeds%s/%s/%s" % ("" if a.round == 1 else str(a.round), a.prop, a.k)
 dst = os.path.join(ROOT, "seeded", "%s-%s%s" % (a.prop, "" if a.round == 1 else "r%d-" % a.round, a.k))
@@ -35,13 +35,14 @@ try:
     os.makedirs(demo_dir, exist_ok=True)
     shutil.copy(os.path.join(src, "demo_test.go"), os.path.join(demo_dir, "demo_test.go"))
     rel = os.path.relpath(demo_dir, wt)
-    d0 = sh(["go", "test", "-vet=off", "-count=1", "./" + rel + "/"], cwd=wt)
+    racef = ["-race"] if a.race else []
+    d0 = sh(["go", "test"] + racef + ["-vet=off", "-count=1", "./" + rel + "/"], cwd=wt)
     res["demo_passes_unmodified"] = d0.returncode == 0
     ap_ = sh(["git", "apply", os.path.join(src, "patch.diff")], cwd=wt)
     res["patch_applies"] = ap_.returncode == 0
     b = sh(["go", "build", "./..."], cwd=wt)
     res["builds"] = b.returncode == 0
-    d1 = sh(["go", "test", "-vet=off", "-count=1", "./" + rel + "/"], cwd=wt)
+    d1 = sh(["go", "test"] + racef + ["-vet=off", "-count=1", "./" + rel + "/"], cwd=wt)
     res["demo_fails_with_patch"] = d1.returncode != 0
     shutil.rmtree(demo_dir)
     t = sh(["go", "test", "-vet=off", "-count=1", "./..."], cwd=wt)
